@@ -321,3 +321,65 @@ func TestReplay(t *testing.T) {
 	}
 	fmt.Printf("REPLAY-PASSES property=%s sub=%s\n", f.Property, f.Sub)
 }
+
+/* ------------------------------------------------------------------------------------------------
+   Coverage-guided fuzzing of a property (thorough tier): Go's native fuzzer mutates the byte string that rapid
+   decodes into a case (rapid.MakeFuzz), so the same generators and checks are driven by coverage feedback from the
+   library's code instead of by rapid's random source. A failing case is saved in the harness's own JSON form and is
+   replayed like any other (TestReplay); the fuzzer's own corpus entry is only a by-product.
+   ------------------------------------------------------------------------------------------------ */
+
+type fuzzStats struct {
+	Property   string         `json:"property"`
+	Sub        string         `json:"sub"`
+	Pid        int            `json:"pid"`
+	Execs      int            `json:"execs"`
+	NonTrivial int            `json:"nontrivial_cases"`
+	Classes    map[string]int `json:"classes"`
+	shapes     map[uint64]struct{}
+}
+
+func fuzzProp[C any](f *testing.F, property, sub string, gen *rapid.Generator[C], check func(C, *Rec) error) {
+	dir := outDir()
+	// seed corpus: the all-zero stream (minimal case) and a few fixed pseudo-random streams
+	f.Add([]byte{})
+	x := hashOf(property, sub)
+	for i := 0; i < 6; i++ {
+		buf := make([]byte, 512<<uint(i%3))
+		for j := 0; j+8 <= len(buf); j += 8 {
+			x = splitmix(x)
+			binary.LittleEndian.PutUint64(buf[j:], x)
+		}
+		f.Add(buf)
+	}
+	st := &fuzzStats{Property: property, Sub: "fuzz:" + sub, Pid: os.Getpid(), Classes: map[string]int{}, shapes: map[uint64]struct{}{}}
+	flush := func() {
+		writeJSON(filepath.Join(dir, fmt.Sprintf("fuzzstats-%s-%s-%d.json", property, sub, st.Pid)), st)
+		writeShapes(filepath.Join(dir, fmt.Sprintf("shapes-%s-fuzz%s-%d.bin", property, sub, st.Pid)), st.shapes)
+	}
+	f.Fuzz(rapid.MakeFuzz(func(rt *rapid.T) {
+		c := gen.Draw(rt, "case")
+		rec := newRec()
+		err := safeCheck(check, c, rec)
+		st.Execs++
+		for k, v := range rec.classes {
+			st.Classes[k] += v
+		}
+		if rec.nontrivial {
+			st.NonTrivial++
+			for _, s := range rec.shapes {
+				if len(st.shapes) < maxShapes/8 {
+					st.shapes[s] = struct{}{}
+				}
+			}
+		}
+		if st.Execs%2000 == 0 || err != nil {
+			flush()
+		}
+		if err != nil {
+			writeJSON(filepath.Join(dir, fmt.Sprintf("fail-%s-%s-fuzz%d.json", property, sub, st.Pid)), &failure{Property: property, Sub: sub,
+				Tier: "thorough", VerifSeed: envInt("VERIF_SEED", 1), Case: mustJSON(c), Failure: err.Error()})
+			rt.Fatalf("%s/%s violated: %v", property, sub, err)
+		}
+	}))
+}
